@@ -297,8 +297,40 @@ func checkC18(r *Run) propMeta {
 	}
 	for _, name := range []string{"decodeNodeFragmentFile", "decodeEdgeFragmentFile"} {
 		if fd := decls[name]; fd != nil && countField != nil {
-			if pos := comparesWithField(info, fd.Body, countField, token.NEQ); pos != token.NoPos {
-				r.Pass("C18-R3-manifest-entry", name+":count", pos, "decoded record count is compared with the manifest's FileManifest.Count")
+			// (a shared helper the function ends in is read as part of it.) Every way to a success return — the verified
+			// preflight read and the plain read alike — passes the comparison.
+			inl := inlineFunc(p, fd, 2)
+			pos := comparesWithField(info, inl.Body, countField, token.NEQ)
+			unchecked := ""
+			if paths, complete := structuredPaths(info, r.Fset, inl.Body.List, 512); complete {
+				for _, pth := range paths {
+					if len(pth.Leaves) == 0 {
+						continue
+					}
+					rs, isRet := pth.Leaves[len(pth.Leaves)-1].(*ast.ReturnStmt)
+					if !isRet || len(rs.Results) == 0 || !isNilIdent(info, rs.Results[len(rs.Results)-1]) {
+						continue
+					}
+					compared := false
+					for _, leaf := range pth.Leaves {
+						if e, ok := leaf.(ast.Expr); ok && (comparesWithField(info, e, countField, token.NEQ) != token.NoPos || comparesWithField(info, e, countField, token.EQL) != token.NoPos) {
+							compared = true
+						}
+					}
+					if !compared && unchecked == "" {
+						unchecked = strings.Join(pth.Taken, ", ")
+						if unchecked == "" {
+							unchecked = "unconditionally"
+						}
+					}
+				}
+			} else {
+				r.Undecide("C18-R3: too many paths through %s", name)
+			}
+			if pos != token.NoPos && unchecked == "" {
+				r.Pass("C18-R3-manifest-entry", name+":count", pos, "decoded record count is compared with the manifest's FileManifest.Count on every path to a success return")
+			} else if pos != token.NoPos {
+				r.Fail("C18-R3-manifest-entry", name+":count", pos, "a success return is reached without comparing the decoded record count with the manifest count (path: %s): a fragment with records removed or added passes that read", unchecked)
 			} else {
 				r.Fail("C18-R3-manifest-entry", name+":count", fd.Pos(), "the decoded record count is no longer compared with the manifest count")
 			}
